@@ -342,3 +342,8 @@ def check(ctx):
     api_rules(ctx, prog)
     setup_input_rules(ctx, prog)
     start_rules(ctx, prog)
+    # end-of-file can only propagate if no other child keeps a copy of the pipe ends: every child closes all foreign descriptors (C11.X2)
+    from . import c11, c16
+    c11.closeall_rules(ctx, prog)
+    # the convenience reader delivers every chunk it reads and reports each stream's end (C16.G1-G3)
+    c16.drain_rules(ctx, prog)
